@@ -193,6 +193,8 @@ var OpArgs = map[string]string{
 	"AddIfExist": "kv",
 	"Get":        "k", "GetLRU": "k", "ContainsKey": "k", "Remove": "k",
 	"ContainsValue": "v", "SetMax": "n", "Sort": "dir", "PutAll": "ks",
+	"Unipoint":     "k",  // StringLinkedSet: put, answering the key
+	"SetNullValue": "nv", // the value the type answers for "no such entry" (logged as "n")
 }
 
 // Obj is one real collection behind the uniform adapter.  Every function
@@ -325,7 +327,7 @@ func (s *Session) Do(op Op) core.Ev {
 		ev["k"] = op.K
 	case "v":
 		ev["v"] = op.V
-	case "n":
+	case "n", "nv":
 		ev["n"] = op.V
 	case "dir":
 		ev["dir"] = op.Dir
@@ -436,10 +438,11 @@ var Profiles = []Profile{
 	{Name: "mixed", Insert: 45, Look: 25, Remove: 15, Whole: 15, Fresh: 50},
 }
 
-var insertOps = []string{"Put", "Put", "Put", "PutFirst", "PutLast", "Add", "Add", "AddFirst", "AddLast", "AddNoOver", "AddIfExist", "PutAll"}
-var lookOps = []string{"ToString", "Get", "Get", "GetLRU", "ContainsKey", "ContainsKey", "ContainsValue", "GetFirstKey", "GetLastKey", "GetFirstValue", "GetLastValue", "IsEmpty", "IsFull"}
+var insertOps = []string{"Put", "Put", "Put", "PutFirst", "PutLast", "Add", "Add", "AddFirst", "AddLast", "AddNoOver", "AddIfExist", "PutAll", "Unipoint"}
+var lookOps = []string{"ToString", "Get", "Get", "GetLRU", "ContainsKey", "ContainsKey", "ContainsValue", "GetFirstKey", "GetLastKey", "GetFirstValue", "GetLastValue", "IsEmpty", "IsFull",
+	"ToFormatString", "ValueIterator", "GetKeySet", "ToKeySet"}
 var removeOps = []string{"Remove", "Remove", "Remove", "RemoveFirst", "RemoveLast"}
-var wholeOps = []string{"Clear", "Sort", "Sort", "Keys", "Values", "Entries", "KeyArray", "ValueArray", "SetMax", "SetMax", "ToBytes"}
+var wholeOps = []string{"Clear", "Sort", "Sort", "Keys", "Values", "Entries", "KeyArray", "ValueArray", "SetMax", "SetMax", "ToBytes", "SetNullValue"}
 
 func pickOp(r *rand.Rand, o *Obj, from []string) string {
 	for i := 0; i < 40; i++ {
@@ -523,6 +526,8 @@ func RandomHistory(r *rand.Rand, s *Session, pr Profile, nops int, vlo, vhi int)
 			default:
 				op.V = sz + 1 + r.Intn(4)
 			}
+		case "nv":
+			op.V = []int{0, 0, -1, 5, 100}[r.Intn(5)]
 		case "ks":
 			m := r.Intn(6)
 			for j := 0; j < m; j++ {
@@ -550,6 +555,7 @@ type Scope struct {
 	Maxes  []int
 	MaxVal int
 	CVals  []int // arguments of ContainsValue
+	Nones  []int // arguments of SetNullValue (nil: not issued)
 	// Unordered: the enumeration order of the type is not part of its state
 	// (plain hash maps): states are identified up to order
 	Unordered bool
@@ -580,6 +586,10 @@ func alphabet(o *Obj, sc Scope) []Op {
 			}
 		case "n":
 			for _, m := range sc.Maxes {
+				a = append(a, Op{Name: n, V: m})
+			}
+		case "nv":
+			for _, m := range sc.Nones {
 				a = append(a, Op{Name: n, V: m})
 			}
 		case "ks":
@@ -798,7 +808,7 @@ func ints(s string) ([]int, error) {
 //	E <src> <op> <a> <b> <dst>             one line per transition; the label
 //	                                       <<op, a, b>> is <<name, key, value>>,
 //	                                       <<"Sort", index into Dirs, 0>> or
-//	                                       <<"SetMax", bound, 0>>,
+//	                                       <<"SetMax", bound, 0>>, <<"SetNullValue", value, 0>>,
 //	                                       <<"ContainsValue", 0, value>>
 func ParseGraph(name, text string) (*Graph, error) {
 	g := &Graph{Name: name}
@@ -850,7 +860,7 @@ func ParseGraph(name, text string) (*Graph, error) {
 				op.K = a
 			case "v":
 				op.V = b
-			case "n":
+			case "n", "nv":
 				op.V = a
 			case "dir":
 				if a < 1 || a > len(Dirs) {
